@@ -55,6 +55,20 @@ env["CARGO_NET_OFFLINE"] = "true"
 env.pop("RUSTFLAGS", None)
 demo = os.path.join(change_dir, "demo.sh")
 ok = True
+if "--recheck" in sys.argv:
+    # re-run only our checks against an already confirmed seed (change_dir = /verif/seeded/<id>)
+    meta = json.load(open(os.path.join(change_dir, "meta.json")))
+    rc, out = run(["git", "-C", wt, "apply", os.path.join(change_dir, "patch.diff")])
+    assert rc == 0, out
+    for c in checks:
+        rc, out = run(["/verif/vf", "check", c, "--tier", tier, "--repo", wt], cwd="/verif", timeout=7200)
+        viol = [l for l in out.splitlines() if l.startswith("VIOLATION") or l.startswith("DETAIL") or l.startswith("MACHINERY")]
+        meta["checks"][c] = {"tier": tier, "exit": rc, "lines": viol[:6], "verif_commit": subprocess.run(["git", "-C", "/verif", "rev-parse", "--short", "HEAD"], stdout=subprocess.PIPE, text=True).stdout.strip()}
+    meta["rechecked_at_repo_head"] = subprocess.run(["git", "-C", "/repo", "rev-parse", "--short", "HEAD"], stdout=subprocess.PIPE, text=True).stdout.strip()
+    json.dump(meta, open(os.path.join(change_dir, "meta.json"), "w"), indent=1)
+    cleanup()
+    print(json.dumps(meta["checks"], indent=1))
+    sys.exit(0)
 # 1. demo on unchanged tree
 rc, out = run(["bash", demo, wt], cwd=change_dir, env=env)
 meta["demo_unchanged_rc"] = rc
